@@ -550,6 +550,32 @@ theorem C10_pipeline_sliced_chain_prefix {Rv : Type} {R : Recoverable PipeAgg.Ba
   obtain ⟨r, r1, r2, r3⟩ := (sliced_chain_refines h (rem it) Ds hf).history (slicedChainFresh R Ds it) fi ops
   exact ⟨r, r1, by rw [r3, fr], slicedAggsDown_delivered (rem it) Ds r.it r2⟩
 
+/-- **… and when the history ends drained** (the last `take` observes the `StopIteration`): the delivered batches are
+the uninterrupted run's and EVERY stage's final state map — every output key × every slice key of every stage — is that of
+one pass over all the outputs of that stage, hence equal to the uninterrupted run's. -/
+theorem C10_pipeline_sliced_chain {Rv : Type} {R : Recoverable PipeAgg.Batch} {Inv : R.It → Prop}
+    {rem : R.It → List PipeAgg.Batch} (h : Refines R Inv rem)
+    (Ds : List (SlicedDef PipeAgg.Batch X S Rv)) (hf : ∀ D ∈ Ds, ∀ a, (D.f a).length ≤ 1)
+    (it : R.It) (hi : Inv it) (ops : List Op) (k : Nat) (hk : (slicedChainOut Ds (rem it)).length < k) :
+    ∃ r u,
+      SrcRun.run (slicedChainRec R Ds) (SrcRun.init (slicedChainRec R Ds) (slicedChainFresh R Ds it)) (ops ++ [.take k]) = .ok r ∧
+      SrcRun.run (slicedChainRec R Ds) (SrcRun.init (slicedChainRec R Ds) (slicedChainFresh R Ds it)) [.take k] = .ok u ∧
+      r.delivered = slicedChainOut Ds (rem it) ∧ r.delivered = u.delivered ∧
+      slicedAggsDown R Ds r.it = slicedFinalAggs Ds (rem it) ∧
+      slicedAggsDown R Ds r.it = slicedAggsDown R Ds u.it := by
+  obtain ⟨href, hx⟩ := sliced_chain_refines_exh (S := S) h (rem it) Ds hf
+  obtain ⟨fi, fr⟩ := sliced_chain_fresh_exh (S := S) (Inv := Inv) (rem := rem) it hi Ds
+  have key : ∀ ops' : List Op, ∃ r,
+      SrcRun.run (slicedChainRec R Ds) (SrcRun.init (slicedChainRec R Ds) (slicedChainFresh R Ds it)) (ops' ++ [.take k]) = .ok r ∧
+      r.delivered = slicedChainOut Ds (rem it) ∧ slicedAggsDown R Ds r.it = slicedFinalAggs Ds (rem it) := by
+    intro ops'
+    obtain ⟨q, q1, q2, q3, q4⟩ := href.history_drained_exh (slicedChainExh Ds) hx
+      (slicedChainFresh R Ds it) fi ops' k (by rw [fr]; exact hk)
+    exact ⟨q, q1, by rw [q2, fr], slicedAggsDown_final (rem it) Ds q.it q3 q4⟩
+  obtain ⟨r, r1, r2, r3⟩ := key ops
+  obtain ⟨u, u1, u2, u3⟩ := key []
+  exact ⟨r, u, r1, by simpa using u1, r2, by rw [r2, u2], r3, by rw [r3, u3]⟩
+
 /-! ## Chains that buffer (re-batching): the exact loss (finding F16)
 
 Full statement (false for the real code, see `Witness.C10_F16_witness`): as `C10_pipeline_seq` for
@@ -703,5 +729,21 @@ example :
       some (3, some (.one (.nums [(19, 1), (3, 1)])), some (.one (.nums [(7, 1), (1, 1)]))) := by decide
 example : (PipeAgg.aggResult PipeAgg.exPipeline PipeAgg.exStream).toOption.bind (PipeAgg.AList.get? · ⟨"o", ⟨["a"], [1]⟩⟩)
     = some (.one (.nums [(19, 1), (3, 1)])) := by decide
+
+/-- a chain of two runners, the upstream one aggregating `y` without slicers, the downstream one the sliced example: both
+stages' state maps after an interrupted history are the one-pass maps -/
+def slicedUp : SlicedDef PipeAgg.Batch (List PipeAgg.Val) PipeAgg.Stat PipeAgg.Rv := ⟨fun b => [b], ⟨[PipeAgg.exAgg2], []⟩⟩
+example : ∀ D ∈ [slicedExample, slicedUp], ∀ a, (D.f a).length ≤ 1 := by
+  intro D hD a
+  simp only [List.mem_cons, List.not_mem_nil, or_false] at hD
+  rcases hD with rfl | rfl <;> exact Nat.le_refl _
+example :
+    ((SrcRun.run (slicedChainRec (seqRec PipeAgg.exStream) [slicedExample, slicedUp])
+        (SrcRun.init _ (slicedChainFresh (seqRec PipeAgg.exStream) [slicedExample, slicedUp] (Src.root 3).iterate))
+        [.take 1, .ckpt, .take 1, .restore, .take 100]).toOption.map fun r =>
+      (r.delivered.length,
+       decide ((slicedAggsDown (seqRec PipeAgg.exStream) [slicedExample, slicedUp] r.it).map Except.toOption =
+         (slicedFinalAggs [slicedExample, slicedUp] PipeAgg.exStream).map Except.toOption))) =
+      some (3, true) := by decide
 
 end MlModel.C10
